@@ -285,7 +285,7 @@ def coefficient_cases(ctx, rng, count):
         free = rand_free(rng, n) if rng.random() < 0.7 else [float(x) for x in rng.uniform(-0.3, 0.6, n)]
         specs.append({"kind": "symcomp", "free": free, "init": bool(rng.integers(2))})
     reqs = [f"coeffs {common.vstr(model_free(s)[0])}" for s in specs]
-    res = common.run_driver("C02", reqs)
+    res = common.run_driver("C02", reqs, timeout=900)
     for spec, line in zip(specs, res, strict=True):
         case = {"coefficients": spec}
         model = common.parse_vec(line)
@@ -324,18 +324,26 @@ def step_cases(ctx, rng, count, eps_list=None, tag="steps"):
         n = int(rng.integers(1, 5))
         syskind = "euc" if rng.random() < 0.6 else "gauss"
         spec = rand_integrator(rng)
-        kicks = n_kicks(spec)
         k = int(rng.integers(1, 4))
         eps = (eps_list[i % len(eps_list)] if eps_list else [0.5, 0.25, 0.125, 0.0625, 0.3][int(rng.integers(5))])
-        # exact rationals grow like b0 * deg^(number of kicks): keep them below ~3e5 bits.  The
+        if i % 2 == 1:
+            # every other case is kept small enough for a non-linear (cubic / quartic) target
+            nfree = int(rng.integers(0, 3))
+            spec = {"kind": "leapfrog"} if (nfree == 0 and rng.random() < 0.5) else {
+                "kind": "symcomp", "free": rand_free(rng, nfree), "init": bool(rng.integers(2))}
+            k = int(rng.integers(1, 3))
+            if common.frac(eps).denominator > 64:
+                eps = 0.25
+        kicks = n_kicks(spec)
+        # exact rationals grow like b0 * deg^(number of kicks): keep the estimate below 4e4 bits (actual sizes are several times the estimate).  The
         # Gaussian-split model works with 53-bit cos/sin data and its backward leg does not cancel.
         coarse = syskind == "gauss" or spec["kind"].startswith("bcss") or common.frac(eps).denominator > 64
         b0 = 64 if coarse else 12
         total = kicks * k * (2 if syskind == "gauss" else 1)
         tk = ["quad"]
-        if b0 * 3**total <= 3e5:
+        if b0 * 3**total <= 4e4:
             tk.append("quartic")
-        if b0 * 2**total <= 3e5:
+        if b0 * 2**total <= 4e4:
             tk.append("cubic")
         tkind = tk[int(rng.integers(len(tk)))] if rng.random() < 0.85 else "quad"
         if tkind == "quad" and rng.random() < 0.5:
@@ -382,7 +390,7 @@ def step_cases(ctx, rng, count, eps_list=None, tag="steps"):
                 req = f"gauss {head} {common.vstr(free)} {int(init)} {tail}"
         reqs.append(req)
         live.append((c, integ))
-    res = common.run_driver("C02", reqs)
+    res = common.run_driver("C02", reqs, timeout=900)
     for (c, integ), line in zip(live, res, strict=True):
         case = _jsonable(c)
         if line == "bad-op":
@@ -482,7 +490,7 @@ def flow_cases(ctx, rng, count):
         checks.append(("dmom", "ceuc", dict(base, flow="dh2_flow_dmom", sys="ceuc", delta=delta.tolist()), target, metric, t, q, p, delta))
         reqs.append(f"harmdmom {mstr(Q)} {common.vstr(omega)} {common.vstr(c)} {common.vstr(s)} {common.vstr(delta)}")
         checks.append(("dmom", "cgauss", dict(base, flow="dh2_flow_dmom", sys="cgauss", delta=delta.tolist()), target, metric, t, q, p, delta))
-    res = common.run_driver("C02", reqs)
+    res = common.run_driver("C02", reqs, timeout=900)
     for (what, kind, case, target, metric, t, q, p, delta), line in zip(checks, res, strict=True):
         if line == "bad-op":
             raise common.MachineryError(f"driver rejected request for {case}")
@@ -601,7 +609,7 @@ def implicit_cases(ctx, rng, count, tag="implicit"):
         reqs.append(f"{c['integrator']} {mats} {tstr(c['target'])} {common.fstr(c['eps'])} {c['dir']}/1 {c['k']} "
                     f"{common.vstr(c['q'])} {common.vstr(c['p'])}")
         live.append((c, integ))
-    res = common.run_driver("C02", reqs)
+    res = common.run_driver("C02", reqs, timeout=900)
 
     def impl_leg(integ, q, p, d, k):
         from mici.states import ChainState
@@ -644,7 +652,13 @@ def implicit_cases(ctx, rng, count, tag="implicit"):
             if state is None:
                 break
             mq, mp = parse_state(m[3:])
-            scale = max(1.0, float(np.abs(state[0]).max()), float(np.abs(state[1]).max()))
+            # scale = largest magnitude along the whole trajectory (the backward leg inherits the
+            # rounding errors of a possibly huge forward state)
+            scale = max(1.0, float(np.abs(state[0]).max()), float(np.abs(state[1]).max()),
+                        float(np.abs(f_state[0]).max()), float(np.abs(f_state[1]).max()))
+            if not np.isfinite(scale) or scale > 1e6:
+                ctx.count(f"{tag}:skipped_unstable")  # astronomically large states: rounding dominates
+                break
             # both sides stop their fixed-point iterations at 1e-9: allow a few multiples of that
             ok = all(abs(float(a) - float(b)) <= 2e-8 * scale for a, b in zip(list(state[0]) + list(state[1]), mq + mp, strict=True))
             if not ok:
@@ -715,7 +729,7 @@ def jacobian_cases(ctx, rng, count):
             continue
         reqs.append(req)
         live.append((c, integ))
-    res = common.run_driver("C03", reqs)
+    res = common.run_driver("C03", reqs, timeout=900)
 
     def step_map(integ, z, d, k):
         n = len(z) // 2
@@ -845,7 +859,7 @@ def constrained_cases(ctx, rng, count, tag="constrained"):
         reqs.append(f"con {mstr(c['C'])} {common.vstr(c['d'])} {mstr(N)} {mstr(Ginv)} {tstr(c['target'])} {c['n_inner']} "
                     f"{common.fstr(c['eps'])} {c['dir']}/1 {c['k']} {common.vstr(c['q'])} {common.vstr(c['p'])}")
         live.append((c, integ))
-    res = common.run_driver("C02", reqs)
+    res = common.run_driver("C02", reqs, timeout=900)
 
     def impl_leg(integ, q, p, d, k):
         s = ChainState(pos=np.array(q, dtype=float), mom=np.array(p, dtype=float), dir=d)
@@ -879,7 +893,8 @@ def constrained_cases(ctx, rng, count, tag="constrained"):
             if state is None:
                 break
             mq, mp = parse_state(mm[3:])
-            scale = max(1.0, float(np.abs(state[0]).max()), float(np.abs(state[1]).max()))
+            scale = max(1.0, float(np.abs(state[0]).max()), float(np.abs(state[1]).max()),
+                        float(np.abs(f_state[0]).max()), float(np.abs(f_state[1]).max()))
             if not all(abs(float(a) - float(b)) <= 1e-8 * scale for a, b in zip(list(state[0]) + list(state[1]), mq + mp, strict=True)):
                 ctx.disagreement(
                     f"{leg} state after {c['k']} constrained step(s) differs: impl pos {state[0].tolist()} mom {state[1].tolist()} "
